@@ -603,6 +603,10 @@ fn sweep<'a, B: SddBuilder<'a>>(b: &'a B, cfg: &SCfg, ctx: &Ctx) -> Report {
                 if cfg.pair_stride > 0 && (ii + jj) % stride != 0 {
                     continue;
                 }
+                // operand-pool configurations split by residue class of the pair index
+                if cfg.pool == 1 && cfg.slice.1 > 1 && (ii + jj) % cfg.slice.1 != cfg.slice.0 {
+                    continue;
+                }
                 let (x, y) = (i as TT, j as TT);
                 let mut ops = vec![SOp::And(x, y), SOp::Or(x, y)];
                 if !cfg.semantic {
@@ -720,6 +724,12 @@ fn sweep<'a, B: SddBuilder<'a>>(b: &'a B, cfg: &SCfg, ctx: &Ctx) -> Report {
 pub fn run_cfg(cfg: &SCfg, ctx: &Ctx) -> Report {
     let t0 = std::time::Instant::now();
     let mut r = with_sdd_builder!(cfg, |b| sweep(&b, cfg, ctx));
+    if std::env::var("VERIF_TRACE").is_ok() {
+        eprintln!("TRACE done n={} pool={} slice={:?} compress={} semantic={} cap={} ms={} rss={:.1} ops={}", cfg.n, cfg.pool, cfg.slice, cfg.compress, cfg.semantic, cfg.table_cap, t0.elapsed().as_millis(), rss_gib(), r.transitions);
+    }
+    if !r.caps_hit.is_empty() {
+        r.add_extra(&format!("capped_configurations_n{}_{}", cfg.n, if cfg.compress { "compressed" } else if cfg.semantic { "semantic" } else { "uncompressed" }), 1);
+    }
     r.add_extra(&format!("busy_ms_n{}_{}", cfg.n, if cfg.pool == 1 { "pool" } else if cfg.slice.1 > 1 { "all_sliced" } else if cfg.pair_stride > 0 { "all_strided" } else { "all" }), t0.elapsed().as_millis() as u64);
     r
 }
@@ -781,7 +791,13 @@ pub fn configs(ctx: &Ctx, semantic: bool, hash: bool) -> Vec<SCfg> {
         v5.extend(all_vtrees(5).into_iter().skip(7).step_by(97));
         for (i, vt) in v5.into_iter().enumerate() {
             for &compress in modes.iter() {
-                out.push(SCfg { n: 5, vtree: vt.clone(), compress, issue: i + ctx.seed as usize, ite_pool: 8, pool: 1, ..base.clone() });
+                // all ordered pairs, split over 8 builders by residue class of the pair index (one
+                // builder holding all 1.7 million results of 5-variable operations needs several GiB)
+                // (without compression diagrams over left-leaning vtrees grow by orders of
+                // magnitude: those configurations take every 5th pair)
+                for k in 0..8 {
+                    out.push(SCfg { n: 5, vtree: vt.clone(), compress, issue: i + ctx.seed as usize, ite_pool: 8, pool: 1, slice: (k, 8), pair_stride: if compress || semantic { 0 } else { 5 }, ..base.clone() });
+                }
             }
         }
     }
@@ -799,9 +815,15 @@ pub fn configs(ctx: &Ctx, semantic: bool, hash: bool) -> Vec<SCfg> {
             }
         }
     } else {
+        // all 120 vtrees x all 65 536 functions, in 16 residue-class builders per (vtree, mode):
+        // a single builder holding all functions and tens of millions of results needs tens of
+        // GiB (nothing is ever freed inside a builder); the residue classes keep every builder
+        // below 1 GiB and use all cores
         for (i, vt) in v4.into_iter().enumerate() {
             for &compress in modes.iter() {
-                out.push(SCfg { n: 4, vtree: vt.clone(), compress, issue: i, ite_pool: 12, pair_stride: 257, ..base.clone() });
+                for k in 0..16 {
+                    out.push(SCfg { n: 4, vtree: vt.clone(), compress, issue: i, ite_pool: 10, pair_stride: if compress || semantic { 127 } else { 509 }, slice: ((k + ctx.seed as usize) % 16, 16), ..base.clone() });
+                }
             }
         }
     }
@@ -819,14 +841,18 @@ pub fn run_all_h(ctx: &Ctx, semantic: bool, hash: bool) -> Report {
     let mut cfgs = configs(ctx, semantic, hash);
     // longest first: the all-functions n = 4 configurations dominate the critical path
     cfgs.sort_by_key(|c| std::cmp::Reverse(if c.n == 4 && c.pool == 0 { 3 } else if c.n == 5 { 2 } else if c.n == 4 { 1 } else { 0 }));
-    let r = par_run(ctx, &cfgs, |_, c| run_cfg(c, ctx));
+    let r = if ctx.tier == Tier::Thorough {
+        run_in_workers(ctx, &cfgs)
+    } else {
+        par_run(ctx, &cfgs, |_, c| run_cfg(c, ctx))
+    };
     rep.merge(r);
     if !hash {
         let w = run_wide(ctx, semantic);
         rep.merge(w);
     }
     rep.distinct_nontrivial = rep.transitions;
-    rep.bound("vtrees", json!({"n=3": "all 12, all functions, all ordered pairs", "n=2": "both", "n=4 operand pool (cubes, clauses, functions of <= 2 variables), all ordered pairs": "all 120 vtrees", "n=4 all functions": if ctx.tier == Tier::Quick {"6 of 120 vtrees, all functions in 16 residue-class builders each, pair stride 509"} else {"all 120, pair stride 257"}, "n=5 operand pool": if ctx.tier == Tier::Quick {"56 vtrees (14 shapes x 4 leaf orders), all unary operations, pair stride 31"} else {"14 shapes x identity/reversed leaf order + every 97th other vtree, all ordered pairs"}}));
+    rep.bound("vtrees", json!({"n=3": "all 12, all functions, all ordered pairs", "n=2": "both", "n=4 operand pool (cubes, clauses, functions of <= 2 variables), all ordered pairs": "all 120 vtrees", "n=4 all functions": if ctx.tier == Tier::Quick {"6 of 120 vtrees, all functions in 16 residue-class builders each, pair stride 509"} else {"all 120 vtrees, compression on/off, all functions in 16 residue-class builders each, pair stride 127 inside a class"}, "n=5 operand pool": if ctx.tier == Tier::Quick {"56 vtrees (14 shapes x 4 leaf orders), all unary operations, pair stride 31"} else {"14 shapes x identity/reversed leaf order + every 97th other vtree, all ordered pairs"}}));
     rep.bound("compression", json!(if semantic {"n/a (semantic builder)"} else {"on and off"}));
     rep.sample(json!({"cfg": {"vtree": "((0 2) 1)", "compress": true, "table_cap": 2}, "ops": ["And(0x96, 0xe8)", "Compose(0xca, 1, 0x3c)", "Ite(0x1b, 0xd8, 0x27)"]}));
     for k in ["apply_case_same_vtree_node", "apply_case_descendant_a", "apply_case_descendant_b", "apply_case_independent"] {
@@ -986,6 +1012,58 @@ pub fn run_cold_only(ctx: &Ctx) -> Report {
     let r = par_run(ctx, &cfgs, |_, c| run_cfg(c, ctx));
     rep.merge(r);
     rep.bound("sdd_warm_vs_cold", json!({"configurations": cfgs.len(), "n=3": "all vtrees, compression on (without compression diagrams are not canonical and their structure may depend on allocation addresses; only their function is promised, which C03 checks)", "n=4": "every 8th operand-pool configuration"}));
+    rep
+}
+
+/// thorough tier: the configurations run in batches in single-threaded worker processes (as
+/// many at a time as there are cores). rsdd's SDD decision nodes own heap vectors that the
+/// builder's bump arena never drops, so a long-lived process that creates thousands of SDD
+/// builders keeps all their element vectors; a worker's memory returns to the system when its
+/// batch ends. A worker that dies is a machinery failure (engine_panic), never a verdict.
+fn run_in_workers(ctx: &Ctx, cfgs: &[SCfg]) -> Report {
+    // batch = consecutive configurations of one weight class, sized for roughly half a minute
+    let size = |c: &SCfg| if c.n == 5 { 4 } else if c.n == 4 && c.pool == 0 { 8 } else { 12 };
+    let mut batches: Vec<Vec<SCfg>> = Vec::new();
+    for c in cfgs.iter() {
+        match batches.last_mut() {
+            Some(b) if b.len() < size(c) && b[0].n == c.n && b[0].pool == c.pool => b.push(c.clone()),
+            _ => batches.push(vec![c.clone()]),
+        }
+    }
+    let per_worker_cap = (1.25 * rss_cap_gib() / ctx.threads.max(1) as f64).max(1.5);
+    let items: Vec<(usize, Vec<SCfg>)> = batches.into_iter().enumerate().collect();
+    let mut r = par_run(ctx, &items, |_, (i, b)| {
+        let input = json!(b.iter().map(|c| c.json()).collect::<Vec<_>>());
+        match run_worker("sdd", &input, ctx, &format!("{}", i), per_worker_cap) {
+            Ok(r) => r,
+            Err(e) => {
+                let mut r = Report::default();
+                r.exhaustive = true;
+                r.extra.insert("engine_panic".into(), json!(e));
+                r
+            }
+        }
+    });
+    r.add_extra("worker_processes", items.len() as u64);
+    r
+}
+
+/// body of `mc __worker sdd <file>`: the configurations of one batch, one after the other
+pub fn worker_batch(ctx: &Ctx, input: &Value) -> Report {
+    let mut rep = Report::default();
+    rep.exhaustive = true;
+    for v in input.as_array().cloned().unwrap_or_default() {
+        match SCfg::from_json(&v) {
+            Some(c) => rep.merge(run_cfg(&c, ctx)),
+            None => {
+                rep.extra.insert("engine_panic".into(), json!("worker: unreadable configuration"));
+            }
+        }
+        if ctx.over_time() {
+            rep.cap("wall-clock cap inside a worker batch");
+            break;
+        }
+    }
     rep
 }
 
